@@ -1948,7 +1948,17 @@ func parseQuerystring(json_body interface{}, qid uint64) (*ASTNode, []*FilterCri
 	var opr = Or
 	switch t := json_body.(type) {
 	case map[string]interface{}:
-		for key, value := range t {
+		// Walk the options in a fixed order and look at all of them before the query text is parsed:
+		// with Go's random map order the same body was accepted or rejected depending on whether
+		// "query" or an option of an unsupported type happened to come first.
+		keys := make([]string, 0, len(t))
+		for key := range t {
+			keys = append(keys, key)
+		}
+		sort.Strings(keys)
+		var queryText interface{}
+		for _, key := range keys {
+			value := t[key]
 			key = strings.TrimSuffix(key, ".raw") // remove any .raw postfix from column name
 			switch valtype := value.(type) {
 			case bool:
@@ -1974,13 +1984,7 @@ func parseQuerystring(json_body interface{}, qid uint64) (*ASTNode, []*FilterCri
 					colName := value.(string)
 					log.Infof("parseQuerystring: Ignoring query_string default_field %v", colName)
 				case "query":
-					var filterCond []*FilterCriteria
-					boolNode, filterCond, err = convertAndParseQuerystring(value, qid)
-					if err != nil {
-						log.Errorf("convertAndParseQuerystring: failed to parse queryString, in=%v, err=%v", value.(string), err)
-						return nil, nil, err
-					}
-					return boolNode, filterCond, nil
+					queryText = value
 				default:
 					log.Infof("qid=%d, parseQuerystring: query_string format not supported", qid)
 				}
@@ -1989,6 +1993,15 @@ func parseQuerystring(json_body interface{}, qid uint64) (*ASTNode, []*FilterCri
 				return nil, nil, errors.New("parseQuerystring: Invalid query_string")
 			}
 
+		}
+		if queryText != nil {
+			var filterCond []*FilterCriteria
+			boolNode, filterCond, err = convertAndParseQuerystring(queryText, qid)
+			if err != nil {
+				log.Errorf("convertAndParseQuerystring: failed to parse queryString, in=%v, err=%v", queryText.(string), err)
+				return nil, nil, err
+			}
+			return boolNode, filterCond, nil
 		}
 	default:
 		log.Errorf("qid=%d, parseQuerystring: unhandled v.type=%v", qid, t)
